@@ -2,6 +2,7 @@ package props
 
 import (
 	"context"
+	"errors"
 	"fmt"
 	"strings"
 	"sync"
@@ -31,6 +32,12 @@ type c02Case struct {
 	CellBlocks bool              `json:"cellblocks"`
 	Snappy     bool              `json:"snappy"`
 	Exc        map[string]string `json:"exc,omitempty"` // marker -> application exception class
+	// RegionExc: indices of regions that answer their next request (a whole region action
+	// of a multi-request) with an application exception naming the region.
+	RegionExc []int `json:"region_exc,omitempty"`
+	// Expire: markers of single calls whose caller cancels its context 1ms after issuing
+	// them (before the flush): the client leaves them out of the multi-request.
+	Expire map[string]bool `json:"expire,omitempty"`
 }
 
 const appExc = "com.example.ApplicationException"
@@ -62,6 +69,17 @@ func c02RunInBubble(c c02Case) (out Outcome) {
 	for mk, class := range c.Exc {
 		cl.Script[mk] = []sim.Outcome{{Kind: "exc", Class: class, Stack: "scripted"}}
 	}
+	regs := cl.TableRegions(c.Layout.Table)
+	for _, ri := range c.RegionExc {
+		r := regs[((ri%len(regs))+len(regs))%len(regs)]
+		r.Transient = append(r.Transient, sim.Exc{Class: appExc, Stack: fmt.Sprintf("%s: region exception region=<%s>", appExc, r.Name)})
+	}
+	regionOf := func(key []byte) string {
+		if r := cl.Owner(c.Layout.Table, key); r != nil {
+			return string(r.Name)
+		}
+		return "?"
+	}
 	opts := []gohbase.Option{gohbase.RpcQueueSize(c.QueueSize), gohbase.FlushInterval(time.Duration(c.FlushMS) * time.Millisecond)}
 	if c.Snappy {
 		opts = append(opts, gohbase.CompressionCodec("snappy"))
@@ -79,6 +97,20 @@ func c02RunInBubble(c c02Case) (out Outcome) {
 	}
 	checkErr := func(op opSpec, err error) {
 		class, scripted := c.Exc[op.Marker]
+		if err != nil && strings.Contains(err.Error(), "region exception region=<") {
+			// a whole-region exception: it must be the one of the region that owns my row
+			if !strings.Contains(err.Error(), "region=<"+regionOf(op.Key)+">") {
+				fail("foreign-error", "call %s (row %q, region %q) received the exception another region produced: %v", op.Marker, op.Key, regionOf(op.Key), err)
+			}
+			return
+		}
+		if c.Expire[op.Marker] && (errors.Is(err, context.Canceled) || err == nil) {
+			return
+		}
+		if err != nil && strings.Contains(err.Error(), "no result for the action in multi response") {
+			fail("foreign-error", "call %s (row %q) was told the server sent no result for it, although the server answered its region: %v", op.Marker, op.Key, err)
+			return
+		}
 		switch {
 		case err == nil && scripted:
 			fail("exception-lost", "call %s (row %q) was answered with %s by the server but the caller got success", op.Marker, op.Key, class)
@@ -103,6 +135,14 @@ func c02RunInBubble(c c02Case) (out Outcome) {
 			ctx := context.Background()
 			for _, st := range steps {
 				if st.Op != nil {
+					ctx := ctx
+					if c.Expire[st.Op.Marker] {
+						cctx, cancel := context.WithCancel(ctx)
+						tm := time.AfterFunc(time.Millisecond, cancel)
+						defer tm.Stop()
+						defer cancel()
+						ctx = cctx
+					}
 					err, cerr := doOp(client, ctx, c.Layout.Table, *st.Op)
 					checkErr(*st.Op, err)
 					if cerr != nil {
@@ -225,6 +265,27 @@ func c02Gen(t *rapid.T) c02Case {
 		}
 		c.Callers = append(c.Callers, steps)
 		c.JitterMS = append(c.JitterMS, rapid.SampledFrom([]int{0, 0, 0, 1, 3, 19, 21}).Draw(t, "jitter"))
+	}
+	if rapid.IntRange(0, 2).Draw(t, "regionexc") == 0 {
+		// whole-region exceptions and callers that give up before the flush; everybody
+		// starts in the same flush window
+		nre := rapid.IntRange(1, 3).Draw(t, "nregionexc")
+		for i := 0; i < nre; i++ {
+			c.RegionExc = append(c.RegionExc, rapid.IntRange(0, 5).Draw(t, "excregion"))
+		}
+		c.Expire = map[string]bool{}
+		for _, steps := range c.Callers {
+			if len(steps) > 0 && steps[0].Op != nil && rapid.IntRange(0, 2).Draw(t, "expire") == 0 {
+				c.Expire[steps[0].Op.Marker] = true
+			}
+		}
+		for i := range c.JitterMS {
+			c.JitterMS[i] = 0
+		}
+		if c.QueueSize == 1 {
+			c.QueueSize = 100
+		}
+		c.FlushMS = 20
 	}
 	if rapid.IntRange(0, 2).Draw(t, "withexc") == 0 {
 		ne := rapid.IntRange(1, 4).Draw(t, "nexc")
